@@ -40,6 +40,7 @@ DEFAULT_CFG = dict(
     fixed_cost=0.08,         # chance per non-dispatchable (non-controllable / out of service) element of a cost entry
     tight_branch=0.45, bus_limits=True, gen_index_gap=0.1,
     oos_el=0.025, oos_bus=0.012, open_switch=0.08,
+    dcline_lossless=0.6,     # share of dclines without losses (the OPF loss model deviates from the documented one)
     dead_terminal=0.1,       # share of cases that keep an in-service ext_grid/dcline at an out-of-service bus
 )
 
@@ -160,6 +161,8 @@ def opf_data(draw, recipe, cfg):
             if e["p_mw"] <= 0:
                 e["p_mw"] = _r(0.05 * S)
             e["max_p_mw"] = _r(e["p_mw"] * draw(st.sampled_from([1.0, 1.5, 3.0])))
+            if _chance(draw, cfg["dcline_lossless"]):
+                e["loss_percent"], e["loss_mw"] = 0.0, 0.0
             qa, qb = _r(S * draw(q(0.05, 0.4, nd=2))), _r(S * draw(q(0.05, 0.4, nd=2)))
             e.update(min_q_from_mvar=-qa, max_q_from_mvar=qa, min_q_to_mvar=-qb, max_q_to_mvar=qb)
     # ext_grid.controllable must be a clean boolean column if it is there at all
